@@ -4,7 +4,7 @@
     The theorems state the documented laws of that semantics. *)
 From LQ Require Import Core.Render Proofs.Value_proofs Proofs.Render_proofs Proofs.Render_buffer Proofs.Render_fuel Proofs.CrossModel.
 From LQ Require Import Proofs.Render_lambda Proofs.Value_decimal Proofs.CrossModel_decimal Proofs.CrossModel_values.
-From LQ Require Kernels.FVal Kernels.FiltersStr Kernels.FiltersSeq.
+From LQ Require Kernels.FVal Kernels.FiltersStr Kernels.FiltersSeq Kernels.ObjAccess Kernels.Undefined Kernels.Json Kernels.Markup Kernels.Printer.
 
 (** Sequencing is compositional: rendering [l1 ++ l2] is rendering [l1] and
     then [l2] from where [l1] stopped; the meaning of a construct does not
@@ -159,6 +159,18 @@ Print Assumptions c01_integer_output_injective.
 Theorem c01_integer_renderings_agree : forall z, str_of_Z z = FVal.z_to_str z.
 Proof. exact str_of_Z_models_agree. Qed.
 Print Assumptions c01_integer_renderings_agree.
+
+(** ... and so do the five further transcriptions of [str(int)] in the kernels of
+    C05, C16, C20, C04 and C12: seven printers, one function on all integers. *)
+Theorem c01_integer_renderings_all_agree : forall z,
+  FVal.z_to_str z = str_of_Z z
+  /\ ObjAccess.z_to_str z = str_of_Z z
+  /\ Undefined.str_of_Z z = str_of_Z z
+  /\ Json.Z_dec z = str_of_Z z
+  /\ Markup.Z_to_str z = str_of_Z z
+  /\ Printer.show_Z z = str_of_Z z.
+Proof. exact integer_renderings_all_agree. Qed.
+Print Assumptions c01_integer_renderings_all_agree.
 
 Theorem c01_liquid_string_models_agree : forall v fv s,
   emb v = Some fv -> FVal.to_liquid_string fv = Ok s -> to_liquid_string v = Some s.
